@@ -1,9 +1,13 @@
 (* Dispatch from a property number to its correspondence check (one entry point for extraction). *)
 From GoSST Require Import Base.Bytes Base.Sx.
-From GoSST Require Corr.C16 Corr.C14 Corr.C04 Corr.C12 Corr.C20.
+From GoSST Require Corr.C16 Corr.C14 Corr.C04 Corr.C12 Corr.C20 Corr.SST.
 
 Definition check_by_id (id : N) (s : sx) : bool :=
   match id with
+  | 3%N => SST.SSTC.check_sx 3 s
+  | 8%N => SST.SSTC.check_sx 8 s
+  | 11%N => SST.SSTC.check_sx 11 s
+  | 15%N => SST.SSTC.check_sx 15 s
   | 4%N => C04.C04.check_sx s
   | 12%N => C12.C12.check_sx s
   | 14%N => C14.C14.check_sx s
